@@ -126,7 +126,7 @@ def KeepsFirst (f : Bytes → Bytes) : Prop := ∀ v, beforeNul (f v) = beforeNu
 def KeepsFirst2 (g : Bytes → Except Unit Bytes) : Prop := ∀ b v, g b = .ok v → beforeNul v = beforeNul b
 
 def HooksKeepFirst (e : Env) : Prop :=
-  (∀ f, e.hook1 = some f → KeepsFirst f) ∧ (∀ g, e.hook2 = some g → KeepsFirst2 g)
+  (∀ f, e.hook1Seen = some f → KeepsFirst f) ∧ (∀ g, e.hook2 = some g → KeepsFirst2 g)
 
 theorem baseHost_first (v : Bytes) (t : ConnType) : beforeNul (backendHandshakeBaseHost v t) = beforeNul v := by
   unfold backendHandshakeBaseHost
@@ -139,7 +139,7 @@ theorem afterHook2_first (e : Env) (vHost v2 : Bytes) (hnf : usedForwarding e = 
   have h1 : beforeNul (afterHook1 e vHost) = beforeNul vHost := by
     unfold afterHook1
     rw [forwardedOrHost_not_used e vHost hnf]
-    cases hh : e.hook1 with
+    cases hh : e.hook1Seen with
     | some f => exact hk.1 f hh vHost
     | none => rfl
   unfold afterHook2 at h
